@@ -79,6 +79,7 @@ fn main() {
                     let mut agg = { let g = sh.lock().unwrap(); Agg::new(g.agg.max_samples - g.agg.samples.len().min(g.agg.max_samples)) };
                     let r = if arms::solver_arm_opts(&arm).is_some() { arms::run_solver_arm(&arm, seed, i, &mut agg, &pre) }
                         else if arm.starts_with("seq-sweep") { arms::run_seq_sweep(&arm, seed, i, &mut agg, None) }
+                        else if arm.starts_with("ex-") { ddosim::exgen::run_example_arm(&arm, seed, i, &mut agg, None).unwrap_or_else(|| { eprintln!("unknown example arm {arm}"); std::process::exit(2) }) }
                         else { history::run_history_arm(&arm, seed, i, &mut agg).unwrap_or_else(|| { eprintln!("unknown arm {arm}"); std::process::exit(2) }) };
                     sh.lock().unwrap().agg.merge(agg);
                     r
@@ -93,6 +94,27 @@ fn main() {
                 }
             }
             print_summary(&sh.lock().unwrap());
+        }
+        "digest" => {
+            // determinism proof: prints one line per run with a digest of EVERYTHING the run produced (full outcome incl. schedule)
+            let arm = get("--arm").expect("--arm");
+            let base: u64 = get("--seed").and_then(|s| s.parse().ok()).unwrap_or(1);
+            let from: u64 = get("--from").and_then(|s| s.parse().ok()).unwrap_or(0);
+            let to: u64 = get("--to").and_then(|s| s.parse().ok()).unwrap_or(100);
+            solve::set_fatal_hook(Some(Box::new(move |viol, rep| { println!("FATAL {} {:?} steps={} trace={:x}", viol.class, rep.fatal, rep.stats.steps, rep.stats.trace_hash); })));
+            for i in from..to {
+                let seed = mix(base, i);
+                let line = if let Some(o) = arms::solver_arm_opts(&arm) {
+                    let sc = solve::generate(&arm, seed, o);
+                    let out = solve::execute(&sc);
+                    format!("{:016x}", ddosim::agg::hash_json(&out))
+                } else {
+                    let mut agg = Agg::new(0);
+                    let r = if arm.starts_with("seq-sweep") { arms::run_seq_sweep(&arm, seed, i, &mut agg, None) } else { history::run_history_arm(&arm, seed, i, &mut agg).flatten() };
+                    format!("{:016x}", ddosim::agg::hash_json(&(r.map(|x| x.violations), &agg.counters)))
+                };
+                println!("{i} {line}");
+            }
         }
         "replay" => {
             let path = args.get(2).expect("replay file");
@@ -125,6 +147,7 @@ fn replay_payload(p: &serde_json::Value, agg: &mut Agg) -> Option<ViolationRecor
             let arm = p["arm"].as_str().unwrap().to_string(); let seed = p["seed"].as_u64().unwrap();
             if arms::solver_arm_opts(&arm).is_some() { arms::run_solver_arm(&arm, seed, 0, agg, &|_| {}) } else if arm.starts_with("seq-sweep") { arms::run_seq_sweep(&arm, seed, 0, agg, None) } else { history::run_history_arm(&arm, seed, 0, agg).flatten() }
         }
+        "example" => ddosim::exgen::run_example_arm(p["arm"].as_str().unwrap_or(""), 0, 0, agg, Some(p)).flatten(),
         _ => history::replay_history(p, agg),
     }
 }
